@@ -14,6 +14,7 @@ func VHarness_C12_no_revisit() {
 	for i, r := range vW.recs {
 		ops = append(ops, vAnchored(i, r, uint64(10+i), uint64(i), true))
 	}
+	vW.maxApply = n*n + n
 	_, err := vResolve(ops, nil)
 	if err != nil {
 		VCover("error")
